@@ -34,7 +34,8 @@ StmtName(u) == CASE u = "TAL" -> "define" [] u = "METAL" -> "define-macro" [] u 
 VARIABLES doc, depth, fin
 vars == <<doc, depth, fin>>
 
-Decl  == [p : {"t", "foo", "i18n"}, u : Uris]
+\* p = "": a default-namespace declaration xmlns="..."
+Decl  == [p : {"", "t", "foo", "i18n"}, u : Uris]
 Attr  == [f : {"pre"}, p : Prefixes] \cup [f : {"bare"}] \cup [f : {"data"}, p : {"tal", "t", "foo", "x"}]
 ElemP == {"", "tal", "t", "foo"}
 
@@ -70,7 +71,8 @@ MapsFrom(n, stk, acc) ==
        ELSE MapsFrom(n + 1, SubSeq(stk, 1, Len(stk) - 1), Append(acc, stk[Len(stk)]))
 Maps == MapsFrom(1, <<Default>>, <<>>)
 
-ElemNs(n) == IF doc[n].ep = "" THEN "NONE" ELSE Maps[n][doc[n].ep]
+\* an unprefixed element is in the default namespace in force
+ElemNs(n) == Maps[n][doc[n].ep]
 \* an attribute's namespace: its prefix's URI; bare attributes belong to the element's namespace
 \* a data-p-n attribute is a statement iff the option is on and p is bound to a
 \* template-language namespace; otherwise it is an ordinary (bare) attribute
